@@ -18,6 +18,7 @@ type Family struct {
 	Name string
 	Args []Sort
 	Res  Sort
+	Type types.Type // Go type of the values, when known (field type, map element type)
 }
 
 type LocKind int
@@ -213,6 +214,7 @@ func (st *State) fieldFam(si *StructInfo, i int) *Family {
 	name := famField(si.Sort, si.Fields[i].Name)
 	_, existed := st.fams[name]
 	f := st.family(name, []Sort{SInt}, si.Fields[i].Sort)
+	f.Type = si.Fields[i].Type
 	if !existed {
 		// entry-heap closure: what the heap holds at function entry refers to objects that exist at entry
 		sym := sanitize(name) + "@0"
@@ -223,6 +225,19 @@ func (st *State) fieldFam(si *StructInfo, i int) *Family {
 			st.sc.emit("(assert (forall ((o Int)) (! (< (s-arr (%[1]s o)) %[2]s) :pattern ((%[1]s o)))))", sym, st.alloc0.S)
 		case *types.Interface:
 			st.ifaceClosure("((o Int))", "("+sym+" o)")
+		case *types.Struct:
+			// one level of nesting: slices / pointers / maps inside a struct-valued field
+			nsi := st.u().structInfoOf(si.Fields[i].Type)
+			st.sc.ensureSort(nsi.Sort)
+			for _, nf := range nsi.Fields {
+				sel := fmt.Sprintf("(%s.%s (%s o))", nsi.Sort, nf.Name, sym)
+				switch nf.Type.Underlying().(type) {
+				case *types.Pointer, *types.Map, *types.Signature:
+					st.sc.emit("(assert (forall ((o Int)) (! (< %s %s) :pattern ((%s o)))))", sel, st.alloc0.S, sym)
+				case *types.Slice:
+					st.sc.emit("(assert (forall ((o Int)) (! (< (s-arr %s) %s) :pattern ((%s o)))))", sel, st.alloc0.S, sym)
+				}
+			}
 		}
 	}
 	return f
@@ -289,6 +304,7 @@ func (st *State) mapFamsT(mt *types.Map) (dom, val, ln *Family) {
 	tn := shortTypeName(mt)
 	_, existed := st.fams["MV."+tn]
 	dom, val, ln = st.family("MD."+tn, []Sort{SInt, k}, SBool), st.family("MV."+tn, []Sort{SInt, k}, v), st.family("ML."+tn, []Sort{SInt}, SInt)
+	val.Type = mt.Elem()
 	if !existed {
 		// the nil map has an empty domain and length 0
 		st.sc.emit("(assert (forall ((k %[2]s)) (! (not (%[1]s 0 k)) :pattern ((%[1]s 0 k)))))", sanitize("MD."+tn)+"@0", k)
@@ -547,7 +563,7 @@ func (st *State) assumeWellFormed(v Term, t types.Type) {
 				ptrIDs = append(ptrIDs, eq(ifType(v), intLit(int64(id))))
 			case *types.Slice:
 				sl := st.unbox(ifPayload(v), ct)
-				st.sc.assert(implies(eq(ifType(v), intLit(int64(id))), T(SBool, "(and (<= 0 (s-off %[1]s)) (<= 0 (s-len %[1]s)) (<= (s-len %[1]s) (s-cap %[1]s)) (<= 0 (s-arr %[1]s)) (< (s-arr %[1]s) %[2]s) (<= (+ (s-off %[1]s) (s-cap %[1]s)) 281474976710656))", sl.S, st.alloc.S)))
+				st.sc.assert(implies(eq(ifType(v), intLit(int64(id))), T(SBool, "(and (<= 0 (s-off %[1]s)) (<= 0 (s-len %[1]s)) (<= (s-len %[1]s) (s-cap %[1]s)) (<= 0 (s-arr %[1]s)) (< (s-arr %[1]s) %[2]s) (=> (= (s-arr %[1]s) 0) (and (= (s-cap %[1]s) 0) (= (s-off %[1]s) 0))) (<= (+ (s-off %[1]s) (s-cap %[1]s)) 281474976710656))", sl.S, st.alloc.S)))
 			}
 		}
 		if len(ptrIDs) > 0 {
@@ -596,4 +612,32 @@ func (st *State) runeString(x Term) Term {
 		st.sc.emit("(assert (forall ((x Int)) (! (and (<= 1 (gstr.len (gstr.ofrune x))) (<= (gstr.len (gstr.ofrune x)) 4) (=> (and (<= 0 x) (< x 128)) (and (= (gstr.len (gstr.ofrune x)) 1) (= (gstr.at (gstr.ofrune x) 0) x))) (=> (or (< x 0) (>= x 128)) (>= (gstr.len (gstr.ofrune x)) 2))) :pattern ((gstr.ofrune x)))))")
 	}
 	return app(SStr, "gstr.ofrune", x)
+}
+
+// havocClosure: values produced by a havoc (callee effects, loop effects) refer to objects that
+// exist afterwards: pointers/maps/functions below the allocation frontier, slices over allocated arrays
+func (st *State) havocClosure(f *Family, fresh string, fargs []Sort, bound Term) {
+	var binders, args []string
+	for i, a := range fargs {
+		binders = append(binders, fmt.Sprintf("(y%d %s)", i, a))
+		args = append(args, fmt.Sprintf("y%d", i))
+	}
+	read := "(" + fresh + " " + strings.Join(args, " ") + ")"
+	bs := "(" + strings.Join(binders, " ") + ")"
+	switch f.Res {
+	case SSlice:
+		st.sc.emit("(assert (forall %s (! (and (<= 0 (s-arr %[2]s)) (< (s-arr %[2]s) %[3]s)) :pattern (%[2]s))))", bs, read, bound.S)
+	case SIface:
+		saved := st.alloc0
+		st.alloc0 = bound
+		st.ifaceClosure(bs, read)
+		st.alloc0 = saved
+	case SInt:
+		if f.Type != nil {
+			switch f.Type.Underlying().(type) {
+			case *types.Pointer, *types.Map, *types.Signature:
+				st.sc.emit("(assert (forall %s (! (and (<= 0 %[2]s) (< %[2]s %[3]s)) :pattern (%[2]s))))", bs, read, bound.S)
+			}
+		}
+	}
 }
